@@ -24,6 +24,8 @@ class AbstractHelp(Component):
 
     def render(self, io, indentation=0):  # type: (IO, int) -> None
         layout = BlockLayout()
+        # Used to tell the names that the formatter would take for style tags
+        self._formatter = io
 
         self._render_help(layout)
 
@@ -47,7 +49,9 @@ class AbstractHelp(Component):
         self, layout, argument
     ):  # type: (BlockLayout, Argument) -> None
         description = argument.description or ""
-        name = "<c1><{}></c1>".format(argument.name)
+        # The angle brackets are written apart from the name, otherwise an argument
+        # named like a style ("comment", "b", ...) would be taken for a style tag
+        name = "<c1><</c1><c1>{}></c1>".format(argument.name)
         default = argument.default
 
         if default is not None and (not isinstance(default, list) or len(default) > 0):
@@ -129,9 +133,9 @@ class AbstractHelp(Component):
         for option in args_format.get_options(False).values():
             # \xC2\xA0 is a non-breaking space
             if option.is_value_required():
-                fmt = "{}\u00A0<{}>"
+                fmt = "{}\u00A0{}"
             elif option.is_value_optional():
-                fmt = "{}\u00A0[<{}>]"
+                fmt = "{}\u00A0[{}]"
             else:
                 fmt = "{}"
 
@@ -141,25 +145,44 @@ class AbstractHelp(Component):
                 option_name = "-{}".format(option.short_name)
 
             argument_parts.append(
-                "[{}]".format(fmt.format(option_name, option.value_name))
+                "[{}]".format(
+                    fmt.format(option_name, self._placeholder(option.value_name))
+                )
             )
 
         for argument in args_format.get_arguments().values():
             arg_name = argument.name
 
             argument_parts.append(
-                ("<{}>" if argument.is_required() else "[<{}>]").format(
-                    arg_name + str(int(argument.is_multi_valued()) or "")
+                ("{}" if argument.is_required() else "[{}]").format(
+                    self._placeholder(
+                        arg_name + str(int(argument.is_multi_valued()) or "")
+                    )
                 )
             )
 
             if argument.is_multi_valued():
-                argument_parts.append("... [<{}N>]".format(arg_name))
+                argument_parts.append(
+                    "... [{}]".format(self._placeholder(arg_name + "N"))
+                )
 
         args_opts = " ".join(argument_parts)
         name = " ".join(name_parts)
 
         layout.add(LabeledParagraph(prefix + name, args_opts, 1, False))
+
+    def _placeholder(self, name):  # type: (str) -> str
+        """
+        Returns "<name>", escaped if the formatter would take it for a style tag.
+        """
+        formatter = getattr(self, "_formatter", None)
+        text = "<{}>".format(name)
+        probe = "<{0}></{0}>".format(name)
+
+        if formatter is not None and formatter.remove_format(probe) != probe:
+            return "\\" + text
+
+        return text
 
     def _format_value(self, value):  # type: (Any) -> str
         return json.dumps(value)
